@@ -32,7 +32,7 @@ pub fn crcv(args: &[&str]) -> String {
     match args {
         [t] => match get_bytes(t) {
             Some(b) => match Bundle::try_from(b.as_slice()) {
-                Ok(mut bndl) => format!("OK {}", show_bool(bndl.crc_valid())),
+                Ok(mut bndl) => format!("OK {}", crc_valid_stable(&mut bndl)),
                 Err(_) => "ERR".into(),
             },
             None => "BADCASE".into(),
@@ -64,12 +64,12 @@ pub fn rtv(args: &[&str]) -> String {
     match parse_bundle(&mut t) {
         Some(mut b) if t.done() => {
             let bytes = b.to_cbor();
-            let mem = b.crc_valid();
+            let mem = crc_valid_stable(&mut b);
             let wire = match Bundle::try_from(bytes.as_slice()) {
-                Ok(mut d) => format!("OK {}", show_bool(d.crc_valid())),
+                Ok(mut d) => format!("OK {}", crc_valid_stable(&mut d)),
                 Err(_) => "ERR".into(),
             };
-            format!("OK MEM {} WIRE {}", show_bool(mem), wire)
+            format!("OK MEM {} WIRE {}", mem, wire)
         }
         _ => "SKIP".into(),
     }
@@ -89,9 +89,9 @@ pub fn decrt(args: &[&str]) -> String {
             Some(b) => match Bundle::try_from(b.as_slice()) {
                 Ok(mut bndl) => {
                     let shown = show_bundle(&bndl);
-                    let v = bndl.crc_valid();
+                    let v = crc_valid_stable(&mut bndl);
                     let re = bndl.to_cbor();
-                    format!("OK {} V {} RE {}", shown, show_bool(v), show_bytes(&re))
+                    format!("OK {} V {} RE {}", shown, v, show_bytes(&re))
                 }
                 Err(_) => "ERR".into(),
             },
@@ -137,4 +137,51 @@ pub fn deca(args: &[&str]) -> String {
         },
         _ => "BADCASE".into(),
     }
+}
+
+/// RTBIG <n extension blocks> <payload length> <crc kind 0|1|2|3=mixed> -> OK RT T|F IDEM T|F V T|F|U LEN <n> H <fnv-1a 64 of the bytes>
+/// Sizes the Coq model cannot evaluate in reasonable time (>= 65536 array elements, blocks beyond 64 KiB); implementation only,
+/// judged by the oracle: the bundle is built by a fixed rule from the three numbers (tools/genb.py big_bundle builds the same one
+/// for the reference encoder), extension block i (type 192, number i + 2, flags i mod 3, data = decimal digits of i), payload
+/// byte j = (7 j + 3) mod 251.
+pub fn rtbig(args: &[&str]) -> String {
+    let (n, plen, kind) = match args {
+        [a, b, c] => match (get_u64(a), get_u64(b), get_u64(c)) {
+            (Some(a), Some(b), Some(c)) if a <= 200_000 && b <= 4_000_000 && c <= 3 => (a, b, c),
+            _ => return "BADCASE".into(),
+        },
+        _ => return "BADCASE".into(),
+    };
+    let crc_of = |i: u64| -> &'static str {
+        match if kind == 3 { i % 3 } else { kind } {
+            0 => "N",
+            1 => "E16",
+            _ => "E32",
+        }
+    };
+    let mut line = format!("B P 7 0 {} DTN 1 x2f2f6e6f6465322f696e DTN 1 x2f2f6e6f6465312f6f7574 NONE 1 0 1000 1 3600000 0 0 [", crc_of(1));
+    for i in (0..n).rev() {
+        let digits: String = i.to_string().bytes().map(|b| format!("{:02x}", b)).collect();
+        line.push_str(&format!(" C 192 {} {} {} UNK x{}", i + 2, i % 3, crc_of(i), digits));
+    }
+    let payload: String = (0..plen).map(|j| format!("{:02x}", (7 * j + 3) % 251)).collect();
+    line.push_str(&format!(" C 1 1 0 {} DATA x{} ]", crc_of(2), payload));
+    let toks: Vec<&str> = line.split(' ').collect();
+    let mut t = Toks::new(&toks);
+    let mut b = match parse_bundle(&mut t) {
+        Some(b) => b,
+        None => return "BADCASE".into(),
+    };
+    let bytes = b.to_cbor();
+    let (rt, v) = match Bundle::try_from(bytes.as_slice()) {
+        Ok(mut d) => (d == b, crc_valid_stable(&mut d)),
+        Err(_) => (false, "F"),
+    };
+    let again = b.to_cbor();
+    let mut h: u64 = 0xcbf29ce484222325;
+    for x in &bytes {
+        h ^= *x as u64;
+        h = h.wrapping_mul(0x100000001b3);
+    }
+    format!("OK RT {} IDEM {} V {} LEN {} H {}", show_bool(rt), show_bool(again == bytes), v, bytes.len(), h)
 }
